@@ -26,7 +26,7 @@ def sinceLast (ins : List StatusIn) : List StatusIn :=
 theorem sinceLast_concat (ins : List StatusIn) (i : StatusIn) :
     sinceLast (ins ++ [i]) = if i.lastHs then [] else sinceLast ins ++ [i] := by
   unfold sinceLast
-  cases h : i.lastHs <;> simp [List.takeWhile_cons, h]
+  cases h : i.lastHs <;> simp [h]
 
 theorem status_run_concat (ins : List StatusIn) (i : StatusIn) :
     status.run (ins ++ [i]) = status.next (status.run ins) i := by
@@ -43,7 +43,7 @@ theorem status_first_run (ins : List StatusIn) :
     obtain ⟨v, la, r⟩ := i
     simp only [status, beats, List.filter_append] at *
     rw [ih]
-    cases v <;> cases la <;> cases r <;> simp [StatusIn.hs, StatusIn.lastHs, List.filter_cons]
+    cases v <;> cases la <;> cases r <;> simp [StatusIn.hs, StatusIn.lastHs]
 
 /-- `ongoing` register after any history: true iff `valid` was seen since the most recent last-beat
     handshake. -/
